@@ -108,6 +108,7 @@ pub fn size_of(sz: char) -> usize {
         // on disk: 36 bytes of header + 8 (u64 key) + 8 (length prefix of the value) + the value
         'm' => PAGE - 36 - 8 - 8,          // exactly one page on disk
         'n' => PAGE - 36 - 8 - 8 + 1,      // one byte over: two pages
+        'o' => PAGE - 36 - 8 - 8 + 16,     // sixteen bytes over: the second page holds value bytes and the key
         'l' => 3 * PAGE - 36 - 8 - 8,      // the per-entry maximum (block 16K - index 4K)
         'x' => 3 * PAGE - 36 - 8 - 8 + 1,  // one byte beyond the per-entry disk limit
         _ => 16,
